@@ -7,8 +7,10 @@
    jwt   {tok, calls, status, hstatus, sent, seen}
          tok: the symbolic token the driver concretised; calls: how often the protected handler
          ran; status: response code; hstatus: the code the handler writes when it runs;
-         sent: the token's non-standard claims as sorted <<name, JSON text>> pairs;
-         seen: the claims (of any name the driver asks for) found in the handler's context
+         sent: every claim of the payload that was transmitted as <<name, JSON text>> pairs sorted by
+         name (registered ones included: Gates!Visible decides which names are non-standard);
+         seen: the claims found in the handler's context under any of the names sent, the
+         registered names and the driver's fixed vocabulary, same form
    cs    {req, calls, status, hstatus, o}
          req: the symbolic signed request; o: body/response identities "<len>:<digest>"      *)
 EXTENDS Gates, TraceKit
@@ -19,9 +21,6 @@ tvars == <<prevCfg, cnt, now, resetAt, resp, l>>
 E == Trace[l]
 IsEvent(e) == l <= Len(Trace) /\ E.e = e /\ l' = l + 1
 
-StdClaims == {"aud", "exp", "jti", "iat", "iss", "nbf", "sub"}
-NonStd(s) == SelectSeq(s, LAMBDA p : p[1] \notin StdClaims)
-
 TReset == IsEvent("reset") /\ prevCfg' = E.prev /\ cnt' = [cur |-> 0, prev |-> 0] /\ now' = 0 /\ resetAt' = 0
                            /\ resp' = NoResp
 TTick  == IsEvent("tick") /\ E.d > 0 /\ Tick(E.d)
@@ -29,12 +28,14 @@ TJwt   == /\ IsEvent("jwt")
           /\ E.calls \in {0, 1}
           /\ JwtReq(E.tok, E.calls = 1, E.hstatus)
           /\ E.status = resp'.status
-          /\ E.calls = 1 => NonStd(E.seen) = E.sent      \* the handler sees the token's non-standard claims
+          /\ E.calls = 1 => ClaimsSeen(E.sent, E.seen)   \* the handler sees the token's non-standard claims
 TCs    == /\ IsEvent("cs")
           /\ E.calls \in {0, 1}
           /\ \/ CsReqAct(E.req, E.calls = 1, E.hstatus, E.status, E.o)
              \/ /\ "KF_CsUnverifiedMethod" \in OpenFindings
                 /\ KF_CsUnverifiedMethod(E.req, E.calls = 1, E.status, E.o)
+             \/ /\ "KF_CsChunkedCipher" \in OpenFindings
+                /\ KF_CsChunkedCipher(E.req, E.calls = 1, E.hstatus, E.status, E.o)
 
 \* engine-level runs only: the router answered (not found / method not allowed) and the gate was
 \* never reached -- routing is C09's business; the protected handler did not run, nothing to demand
